@@ -191,9 +191,12 @@ def be32 (n : Nat) : Bytes :=
   [UInt8.ofNat (n / 2 ^ 24 % 256), UInt8.ofNat (n / 2 ^ 16 % 256), UInt8.ofNat (n / 2 ^ 8 % 256), UInt8.ofNat (n % 256)]
 
 /-- `SerializeBlob::operator()` with `pbf_compression::none`: 4-byte length, BlobHeader, Blob.
-    Since fix 9b8b2e0 a message of more than 32 MiB raises pbf_error (`none`) instead of an assert. -/
+    Since fix 9b8b2e0 a message of more than 32 MiB raises pbf_error (`none`) instead of an assert; since
+    fix 77d5451 so does a Blob (message + tag byte + length bytes) of more than 32 MiB, which is what the
+    reader checks (`nextBlob`). -/
 def frameBlob (type : Bytes) (msg : Bytes) : Option Bytes :=
   if msg.length > PbfFraming.maxUncompressedBlobSize then none else
+  if (encodeFields [fBytes 1 msg]).length > PbfFraming.maxUncompressedBlobSize then none else
   let blob := encodeFields [fBytes 1 msg]
   let hdr := encodeFields [fBytes 1 type, fVarint 3 (u64 (toInt32 blob.length))]
   some (be32 (hdr.length % 2 ^ 32) ++ hdr ++ blob)
